@@ -15,6 +15,8 @@ pub uninterp spec fn aead_dec(id: int, k: Seq<u8>, n: u64, ad: Seq<u8>, ct: Seq<
 // (the previous buffer contents and the ciphertext) - never of the key or the plaintext (C19)
 pub uninterp spec fn dec_fail_out(id: int, old_out: Seq<u8>, ct: Seq<u8>) -> Seq<u8>;
 pub uninterp spec fn dh_pub(id: int, sk: Seq<u8>) -> Seq<u8>;
+// public-key length of the DH function `id`
+pub uninterp spec fn dh_pub_len(id: int) -> int;
 pub uninterp spec fn dh_fn(id: int, sk: Seq<u8>, pk: Seq<u8>) -> Seq<u8>;
 // whether the DH function accepts this peer public key (always true for X25519; P-256 rejects invalid points)
 pub uninterp spec fn dh_valid(id: int, sk: Seq<u8>, pk: Seq<u8>) -> bool;
